@@ -226,7 +226,10 @@ def style_unit(cname):
                 eng.genv[k_] = mod.d[k_]
         eng.exc_parents["StyleError"] = "TermImageError"
         eng.genv["StyleError"] = ClassV("StyleError")
-        cls = st.new("imgcls", {"_FORMAT_SPEC": pats, "__name__": cname})
+        # class-wide settings a specifier's meaning must NOT depend on (the format specifier denotes its own fields, whatever is set on
+        # the class): any values
+        cls = st.new("imgcls", {"_FORMAT_SPEC": pats, "__name__": cname, "jpeg_quality": z3.Int("class_jpeg_quality"),
+                                "read_from_file": z3.Bool("class_read_from_file"), "_render_method": "lines"})
         get_spec = inline(ctx.fn(COMMON, "BaseImage._get_style_format_spec"), eng)
         base_check = inline(ctx.fn(COMMON, "BaseImage._check_style_format_spec"), eng)
 
